@@ -548,7 +548,7 @@ fn check_c02(ctx: &Ctx, ti: usize, r: &Ref, case: &Case) -> CaseResult {
                     Some(x) => cur = x.clone(),
                     None => {
                         // a child without discriminant specializes to None (statement ambiguity, see DESIGN C06-L)
-                        if c == json!("None") && !has_discriminant(r, &chain[k], &chain[k + 1]) {
+                        if c == json!("None") && !strong_match(r, &chain[k], &chain[k + 1], cur.as_object().unwrap_or(&serde_json::Map::new())) {
                             ok = false;
                             res.events.insert("alias-without-discriminant".into());
                             break;
@@ -573,23 +573,45 @@ fn check_c02(ctx: &Ctx, ti: usize, r: &Ref, case: &Case) -> CaseResult {
     res
 }
 
-/// does child `c` of `p` (or a descendant) carry a constraint on a field visible in p, or is
-/// its own static size usable to tell it from its siblings
-fn has_discriminant(r: &Ref, p: &str, c: &str) -> bool {
-    let pf = r.flat(p);
-    let visible: BTreeSet<String> = pf.data_fields().iter().filter_map(|f| f.id().map(|s| s.to_string())).collect();
+/// Does child `c` of `p` have a *discriminated* match for the parent value `pobj`: a node N of
+/// c's subtree whose constraints on fields visible in the parent value are non-empty and all
+/// satisfied, or (where constraints alone cannot tell cases apart) whose constant size equals
+/// the payload length.  A match that is only vacuous (no constraint, no usable size) is the
+/// ambiguous alias case of DESIGN C06-L: both the child and None are accepted for it.
+fn strong_match(r: &Ref, p: &str, c: &str, pobj: &serde_json::Map<String, Value>) -> bool {
+    let plen = pobj.get("payload").and_then(|x| x.as_array()).map(|a| a.len() as u64);
+    // is there an ambiguity by constraints alone among all cases of p?
+    let mut cases: Vec<(String, Vec<(String, u64)>)> = vec![];
+    for ch in r.d.children_of(p) {
+        let mut nodes = vec![ch.clone()];
+        nodes.extend(r.d.descendants_of(&ch));
+        for n in nodes {
+            let mut cons: Vec<(String, u64)> = cons_below(r, p, &n).into_iter().filter(|(k, _)| pobj.contains_key(k)).collect();
+            cons.sort();
+            cases.push((ch.clone(), cons));
+        }
+    }
+    let ambiguous = cases.iter().any(|(c1, k1)| cases.iter().any(|(c2, k2)| c1 != c2 && k1 == k2));
     let mut nodes = vec![c.to_string()];
     nodes.extend(r.d.descendants_of(c));
     for n in &nodes {
-        let nf = r.flat(n);
-        for k in nf.cons.keys() {
-            if visible.contains(k) && !pf.cons.contains_key(k) {
-                return true;
+        let cons: Vec<(String, u64)> = cons_below(r, p, n).into_iter().filter(|(k, _)| pobj.contains_key(k)).collect();
+        let sat = cons.iter().all(|(k, v)| pobj.get(k).and_then(|x| x.as_u64()) == Some(*v));
+        if !sat {
+            continue;
+        }
+        if !cons.is_empty() {
+            return true;
+        }
+        if ambiguous {
+            if let (Some(s), Some(l)) = (own_static_octets(r, n), plen) {
+                if s == l {
+                    return true;
+                }
             }
         }
     }
-    // size-only discrimination needs siblings
-    r.d.children_of(p).len() > 1
+    false
 }
 
 fn check_c04(ctx: &Ctx, ti: usize, r: &Ref, case: &Case) -> CaseResult {
@@ -843,7 +865,7 @@ fn check_c06(ctx: &Ctx, ti: usize, r: &Ref, case: &Case) -> CaseResult {
             let mut ev = Events::new();
             match &sp {
                 Out::Ok(c) if c == &json!("None") => {
-                    let strong: Vec<&String> = adm_cs.iter().filter(|x| has_discriminant(r, &t.name, x)).collect();
+                    let strong: Vec<&String> = adm_cs.iter().filter(|x| strong_match(r, &t.name, x, &pobj)).collect();
                     // None is right when nothing matches; when something matches, the selected child must fail to parse
                     // (then Err, not None), so a match with a discriminant contradicts None
                     if !strong.is_empty() {
@@ -923,9 +945,12 @@ fn check_c06(ctx: &Ctx, ti: usize, r: &Ref, case: &Case) -> CaseResult {
                     if !same_out(&arep.to_vec, &crep.to_vec) {
                         res.fails.push(fail("try_from", "up:bytes-differ", format!("parent {} child {}", out_brief(&arep.to_vec), out_brief(&crep.to_vec))));
                     }
-                    match (c.down)(aj) {
-                        Out::Ok(back) if back == cj => {}
-                        o => res.fails.push(fail("try_from", "up-down:differs", format!("{} -> {} -> {}: {}", ct, t.name, ct, out_brief(&o)))),
+                    // converting back re-parses the payload: promised for the round-trippable class only
+                    if rt_class(r, ct, 0).1 {
+                        match (c.down)(aj) {
+                            Out::Ok(back) if back == cj => {}
+                            o => res.fails.push(fail("try_from", "up-down:differs", format!("{} -> {} -> {}: {}", ct, t.name, ct, out_brief(&o)))),
+                        }
                     }
                     res.outcome = "up:Ok".into();
                 }
